@@ -45,8 +45,9 @@ def scope(ctx):
 
 
 def run(ctx):
-    from .C15 import rate_definitions
+    from .C15 import rate_definitions, psi_tables
     rate_definitions(ctx)
+    psi_tables(ctx)          # kill_by_pressure ranks by what the PSI reader hands out
     P, cg = ctx.prog, ctx.cg
     fns = scope(ctx)
     ctx.counters["scope_functions"] = len(fns)
